@@ -1,4 +1,433 @@
-//! C16: harness domain (stub).
+//! C16: allocated pids and references are unique under any interleaving.
+//!
+//! Drives the REAL `edp_client::PidAllocator` and `edp_node::Node::make_reference`:
+//!  * sequentially, from counter positions set through the `*_test_only` accessors (1, MAX-1, MAX, serial 2^32-1,
+//!    serial 2^64-1, id u32::MAX, ...), across id wraps and the serial's 32-bit wrap; results are compared with the Lean
+//!    model's sequential function (`c16seq` hash + final state, `c16win` explicit windows, `c16ops` with `set_creation`);
+//!  * on 2-4 real OS threads (seeded counts, optionally a concurrent `set_creation` thread): every thread's observed
+//!    results are handed to the driver, which must reconstruct a schedule of the small-step model producing exactly
+//!    these per-thread results (`c16thr`, trace validation at allocation granularity);
+//!  * the property itself on the implementation's output: (id, serial) pairwise distinct, creations in force
+//!    (X lines from the harness for the large runs, `c16uniq` / `c16refuniq` P lines through the Lean oracle).
+//! Finer interleaving control needs the hook patch proposed in notes/C16-hooks.patch (see harness/src/c16_sched.rs.txt).
 use crate::Ctx;
+use edp_client::PidAllocator;
+use erltf::types::Atom;
+use std::panic::{catch_unwind, AssertUnwindSafe};
+use std::sync::atomic::Ordering;
+use std::sync::{Arc, Barrier};
 
-pub fn run(_ctx: &mut Ctx) {}
+/// only used to pick boundary positions; the oracle's value is regenerated from the source (Generated/Misc.lean)
+const MAXP: u32 = 1_048_576;
+const FNV0: u64 = 14695981039346656037;
+const FNVP: u64 = 1099511628211;
+
+#[derive(Clone, Copy, PartialEq, Eq, Debug)]
+enum Res {
+    Ok(u32, u32, u32),
+    Err,
+    Panic,
+}
+
+impl Res {
+    fn text(&self) -> String {
+        match self {
+            Res::Ok(i, s, c) => format!("{}.{}.{}", i, s, c),
+            Res::Err => "err".to_string(),
+            Res::Panic => "panic".to_string(),
+        }
+    }
+    fn hash(&self, h: u64) -> u64 {
+        match self {
+            Res::Ok(i, s, c) => mix(mix(mix(mix(h, 0), *i as u64), *s as u64), *c as u64),
+            Res::Err => mix(h, 1),
+            Res::Panic => mix(h, 2),
+        }
+    }
+}
+
+fn mix(h: u64, w: u64) -> u64 {
+    (h ^ w).wrapping_mul(FNVP)
+}
+
+fn call(a: &PidAllocator) -> Res {
+    match catch_unwind(AssertUnwindSafe(|| a.allocate())) {
+        Ok(Ok(p)) => Res::Ok(p.id, p.serial, p.creation),
+        Ok(Err(_)) => Res::Err,
+        Err(_) => Res::Panic,
+    }
+}
+
+fn mk(id0: u32, ser0: u64, cre: u32) -> PidAllocator {
+    let a = PidAllocator::new(Atom::new("c16@localhost"), cre);
+    a.next_id_test_only().store(id0, Ordering::SeqCst);
+    a.next_serial_test_only().store(ser0, Ordering::SeqCst);
+    a
+}
+
+fn dup_check(ctx: &mut Ctx, what: &str, keys: &mut Vec<u64>) {
+    keys.sort_unstable();
+    for w in keys.windows(2) {
+        if w[0] == w[1] {
+            ctx.fail("c16-dup-pid", &format!("{} id={} serial={} handed out twice", what, w[0] >> 32, w[0] & 0xffff_ffff));
+            return;
+        }
+    }
+}
+
+/// n sequential allocations from (id0, ser0); ties the hash of all results, the final counters and explicit windows
+fn seq_run(ctx: &mut Ctx, id0: u32, ser0: u64, cre: u32, n: usize) {
+    let a = mk(id0, ser0, cre);
+    let mut h = FNV0;
+    let mut oks = 0u64;
+    let mut last = Res::Err;
+    let mut saw_panic = false;
+    let mut keys: Vec<u64> = Vec::with_capacity(n);
+    // windows: the first results, and the ones around the id wrap
+    let wrap_at: Option<usize> = if id0 <= MAXP { Some((MAXP - id0) as usize) } else { None };
+    let w0 = (0usize, 6usize.min(n));
+    let w1 = match wrap_at {
+        Some(w) if w >= 3 && w + 5 <= n => Some((w - 3, 8usize)),
+        _ => None,
+    };
+    let mut win0: Vec<String> = vec![];
+    let mut win1: Vec<String> = vec![];
+    for i in 0..n {
+        let r = call(&a);
+        h = r.hash(h);
+        match r {
+            Res::Ok(id, s, c) => {
+                oks += 1;
+                keys.push(((id as u64) << 32) | s as u64);
+                if c != cre {
+                    ctx.fail("c16-creation", &format!("seq id0={} ser0={} i={} creation={} expected={}", id0, ser0, i, c, cre));
+                }
+            }
+            Res::Panic => {
+                saw_panic = true;
+                ctx.count("seq_panics");
+            }
+            Res::Err => ctx.count("seq_errs"),
+        }
+        if i < w0.1 {
+            win0.push(r.text());
+        }
+        if let Some((f, c)) = w1 {
+            if i >= f && i < f + c {
+                win1.push(r.text());
+            }
+        }
+        last = r;
+    }
+    let st = format!(
+        "{},{},{}",
+        a.next_id_test_only().load(Ordering::SeqCst),
+        a.next_serial_test_only().load(Ordering::SeqCst),
+        if saw_panic { 1 } else { 0 }
+    );
+    ctx.tie("seq", &format!("c16seq {} {} {} {}", id0, ser0, cre, n), &format!("h={} ok={} last={} st={}", h, oks, last.text(), st));
+    if !win0.is_empty() {
+        ctx.tie("win", &format!("c16win {} {} {} {} {}", id0, ser0, cre, w0.0, w0.1), &win0.join(","));
+    }
+    if let Some((f, c)) = w1 {
+        ctx.tie("win", &format!("c16win {} {} {} {} {}", id0, ser0, cre, f, c), &win1.join(","));
+        ctx.count("seq_id_wraps_windowed");
+    }
+    dup_check(ctx, &format!("seq id0={} ser0={} n={}", id0, ser0, n), &mut keys);
+    ctx.add("seq_allocations", n as u64);
+    ctx.count("seq_runs");
+}
+
+fn positions(ctx: &mut Ctx) -> Vec<(u32, u64)> {
+    let k = |ctx: &mut Ctx| ctx.rng.range(1, 600) as u32;
+    let r32 = |ctx: &mut Ctx| ctx.rng.next() & 0xffff_ffff;
+    vec![
+        (1, 0),
+        (MAXP - 1, 0),
+        (MAXP, 0),
+        (MAXP - k(ctx), 0),
+        (1, 0xffff_ffff),
+        (MAXP - k(ctx), 0xffff_ffff),
+        (MAXP - k(ctx), 0xffff_fffe),
+        (MAXP, 0xffff_ffff),
+        (MAXP - k(ctx), 0x1_0000_0000 - 1 + (r32(ctx) << 32)), // low word 2^32-1, high word arbitrary
+        (MAXP - k(ctx), u64::MAX),                              // `fetch_add(..) + 1` overflows: panic, then poisoned
+        (MAXP - k(ctx), u64::MAX - 1),
+        (u32::MAX, r32(ctx)),                                    // `id + 1` overflows: panic, then poisoned
+        (u32::MAX - 1, r32(ctx)),
+        (0, r32(ctx)),
+        (MAXP + 1 + k(ctx), r32(ctx)),
+        (ctx.rng.range(1, MAXP as u64) as u32, r32(ctx)),
+        (ctx.rng.range(1, MAXP as u64) as u32, ctx.rng.next()),
+    ]
+}
+
+fn seq_part(ctx: &mut Ctx) {
+    // total: 10^5 (quick) / 10^7 (thorough) allocations across wraps
+    let per = ctx.n(4000, 120_000);
+    for (id0, ser0) in positions(ctx) {
+        let cre = ctx.rng.range(0, 5) as u32 + if ctx.rng.chance(1, 8) { 0xffff_fff0 } else { 0 };
+        seq_run(ctx, id0, ser0, cre, per);
+    }
+    // one long run from a fresh allocator state crossing several id wraps
+    let long = ctx.n(32_000, 8_000_000);
+    seq_run(ctx, MAXP - 10_000, 0xffff_fffe, 1, long);
+    // short runs at every boundary position
+    for (id0, ser0) in positions(ctx) {
+        seq_run(ctx, id0, ser0, 3, 12);
+    }
+}
+
+/// sequential mixes of allocate and set_creation
+fn ops_part(ctx: &mut Ctx) {
+    let rounds = ctx.n(150, 3000);
+    for _ in 0..rounds {
+        let pos = positions(ctx);
+        let (id0, ser0) = *ctx.rng.pick(&pos);
+        // keep the start within a few steps of the boundary so that short sequences cross it
+        let id0 = if id0 < MAXP && id0 > MAXP - 700 { MAXP - ctx.rng.range(0, 6) as u32 } else { id0 };
+        let cre = ctx.rng.range(0, 9) as u32;
+        let a = mk(id0, ser0, cre);
+        let len = ctx.rng.range(1, 40) as usize;
+        let mut ops = vec![];
+        let mut out = vec![];
+        let mut saw_panic = false;
+        let mut cur = cre;
+        for _ in 0..len {
+            if ctx.rng.chance(1, 4) {
+                let c = ctx.rng.range(0, 0xffff_ffff) as u32;
+                a.set_creation(c);
+                cur = c;
+                ops.push(format!("c{}", c));
+                ctx.count("ops_set_creation");
+            } else {
+                let r = call(&a);
+                if r == Res::Panic {
+                    saw_panic = true;
+                }
+                if let Res::Ok(_, _, c) = r {
+                    if c != cur {
+                        ctx.fail("c16-creation", &format!("ops id0={} ser0={} ops={} creation={} in-force={}", id0, ser0, ops.join(","), c, cur));
+                    }
+                }
+                out.push(r.text());
+                ops.push("a".to_string());
+                ctx.count("ops_allocate");
+            }
+        }
+        let st = format!(
+            "{},{},{}",
+            a.next_id_test_only().load(Ordering::SeqCst),
+            a.next_serial_test_only().load(Ordering::SeqCst),
+            if saw_panic { 1 } else { 0 }
+        );
+        let cre_now: u32 = a.creation().into();
+        ctx.tie(
+            "ops",
+            &format!("c16ops {} {} {} {}", id0, ser0, cre, ops.join(",")),
+            &format!("{} st={} cre={}", out.join(","), st, cre_now),
+        );
+    }
+}
+
+/// real OS threads; every thread's observed results go to the driver for trace validation
+fn thread_part(ctx: &mut Ctx) {
+    let rounds = ctx.n(48, 600);
+    for round in 0..rounds {
+        let nthreads = ctx.rng.range(2, 4) as usize;
+        let pos = positions(ctx);
+        let (mut id0, ser0) = pos[round % pos.len()];
+        let max_per = if ctx.rng.chance(1, 3) { 12 } else { 300 };
+        let counts: Vec<usize> = (0..nthreads).map(|_| ctx.rng.range(1, max_per) as usize).collect();
+        let total: usize = counts.iter().sum();
+        // place the id wrap inside the run for the near-wrap positions
+        if id0 < MAXP && id0 > MAXP - 700 {
+            id0 = MAXP - ctx.rng.range(0, total as u64) as u32;
+        }
+        let cre = ctx.rng.range(0, 9) as u32;
+        let setcs: Vec<u32> = if ctx.rng.chance(1, 3) {
+            let m = ctx.rng.range(1, 6);
+            (0..m).map(|i| 1000 + i as u32).collect()
+        } else {
+            vec![]
+        };
+        let spin: Vec<u64> = (0..nthreads + 1).map(|_| ctx.rng.range(0, 200)).collect();
+        let a = Arc::new(mk(id0, ser0, cre));
+        let progress = Arc::new(std::sync::atomic::AtomicUsize::new(0));
+        let barrier = Arc::new(Barrier::new(nthreads + 1));
+        let mut handles = vec![];
+        for t in 0..nthreads {
+            let a = a.clone();
+            let b = barrier.clone();
+            let n = counts[t];
+            let sp = spin[t];
+            let pr = progress.clone();
+            handles.push(std::thread::spawn(move || {
+                b.wait();
+                let mut v = Vec::with_capacity(n);
+                for i in 0..n {
+                    v.push(call(&a));
+                    pr.fetch_add(1, Ordering::SeqCst);
+                    if sp > 0 && (i as u64) % (sp + 1) == 0 {
+                        std::thread::yield_now();
+                    }
+                }
+                v
+            }));
+        }
+        let setter = {
+            let a = a.clone();
+            let b = barrier.clone();
+            let vals = setcs.clone();
+            let sp = spin[nthreads];
+            let pr = progress.clone();
+            std::thread::spawn(move || {
+                b.wait();
+                let m = vals.len();
+                for (j, c) in vals.into_iter().enumerate() {
+                    // store the j-th value once about (j+1)/(m+1) of the allocations have been made
+                    let threshold = total * (j + 1) / (m + 1);
+                    while pr.load(Ordering::SeqCst) < threshold {
+                        std::thread::yield_now();
+                    }
+                    for _ in 0..sp {
+                        std::hint::spin_loop();
+                    }
+                    a.set_creation(c);
+                }
+            })
+        };
+        let per: Vec<Vec<Res>> = handles.into_iter().map(|h| h.join().unwrap()).collect();
+        setter.join().unwrap();
+        let lists: Vec<String> = per.iter().map(|v| v.iter().map(|r| r.text()).collect::<Vec<_>>().join(",")).collect();
+        let lists = lists.join(";");
+        let setcs_s = if setcs.is_empty() { "-".to_string() } else { setcs.iter().map(|c| c.to_string()).collect::<Vec<_>>().join(",") };
+        let saw_panic = per.iter().flatten().any(|r| *r == Res::Panic);
+        let st = format!(
+            "{},{},{}",
+            a.next_id_test_only().load(Ordering::SeqCst),
+            a.next_serial_test_only().load(Ordering::SeqCst),
+            if saw_panic { 1 } else { 0 }
+        );
+        let cre_now: u32 = a.creation().into();
+        // model-vs-code: the model has a schedule that yields exactly these per-thread observations and this final state
+        ctx.tie(
+            "thr",
+            &format!("c16thr {} {} {} {} {}", id0, ser0, cre, setcs_s, lists),
+            &format!("admitted n={} st={} cre={}", total, st, cre_now),
+        );
+        // the property on the implementation's output, through the Lean oracle and directly
+        ctx.prop("gen", &format!("c16uniq {} {} {}", cre, setcs_s, lists), "ok");
+        let mut keys: Vec<u64> = per
+            .iter()
+            .flatten()
+            .filter_map(|r| if let Res::Ok(i, s, _) = r { Some(((*i as u64) << 32) | *s as u64) } else { None })
+            .collect();
+        dup_check(ctx, &format!("threads id0={} ser0={} counts={:?}", id0, ser0, counts), &mut keys);
+        // per-thread: the creation values a thread sees never go back in the order they were stored
+        for v in &per {
+            let mut idx = 0usize;
+            for r in v {
+                if let Res::Ok(_, _, c) = r {
+                    let all: Vec<u32> = std::iter::once(cre).chain(setcs.iter().copied()).collect();
+                    match all.iter().position(|x| x == c) {
+                        Some(p) if p >= idx => idx = p,
+                        _ => ctx.fail("c16-creation", &format!("threads id0={} ser0={} creation {} after index {}", id0, ser0, c, idx)),
+                    }
+                }
+            }
+        }
+        ctx.add("thread_allocations", total as u64);
+        ctx.count(&format!("thread_rounds_{}threads", nthreads));
+        if !setcs.is_empty() {
+            ctx.count("thread_rounds_with_set_creation");
+        }
+        if saw_panic {
+            ctx.count("thread_rounds_with_panic");
+        }
+        ctx.count("traces_validated");
+    }
+}
+
+fn ref_text(r: &erltf::types::ExternalReference) -> String {
+    let w = |i: usize| r.ids.get(i).copied().map(|x| x.to_string()).unwrap_or_else(|| "x".to_string());
+    format!("{}:{}:{}:{}{}", r.creation, w(0), w(1), w(2), if r.ids.len() == 3 { "" } else { ":extra" })
+}
+
+fn ref_part(ctx: &mut Ctx) {
+    // sequential: a fresh node's counter starts at 0, its creation at 1 (no accessor exists to move the counter)
+    let n = ctx.n(30_000, 3_000_000);
+    let node = edp_node::Node::new("c16@localhost", "cookie");
+    let mut h = FNV0;
+    let mut last = String::new();
+    let mut firsts: Vec<u32> = Vec::with_capacity(n);
+    for _ in 0..n {
+        let r = node.make_reference();
+        h = mix(mix(mix(mix(h, r.creation as u64), r.ids[0] as u64), r.ids[1] as u64), r.ids[2] as u64);
+        firsts.push(r.ids[0]);
+        last = ref_text(&r);
+    }
+    ctx.tie("refseq", &format!("c16refseq 0 1 {}", n), &format!("h={} last={}", h, last));
+    firsts.sort_unstable();
+    if firsts.windows(2).any(|w| w[0] == w[1]) {
+        ctx.fail("c16-dup-ref", &format!("sequential n={} first word repeated", n));
+    }
+    ctx.add("ref_seq_calls", n as u64);
+    // the small-step model itself on a short sequential run
+    let node = edp_node::Node::new("c16@localhost", "cookie");
+    let k = 25;
+    let rs: Vec<String> = (0..k).map(|_| ref_text(&node.make_reference())).collect();
+    ctx.tie("refrun", &format!("c16refrun 0 1 {}", k), &rs.join(","));
+    // threads
+    let rounds = ctx.n(40, 500);
+    for _ in 0..rounds {
+        let nthreads = ctx.rng.range(2, 4) as usize;
+        let max_per = if ctx.rng.chance(1, 3) { 8 } else { 120 };
+        let counts: Vec<usize> = (0..nthreads).map(|_| ctx.rng.range(1, max_per) as usize).collect();
+        let total: usize = counts.iter().sum();
+        let spin: Vec<u64> = (0..nthreads).map(|_| ctx.rng.range(0, 50)).collect();
+        let node = edp_node::Node::new("c16@localhost", "cookie");
+        let barrier = Barrier::new(nthreads);
+        let per: Vec<Vec<String>> = std::thread::scope(|s| {
+            let hs: Vec<_> = (0..nthreads)
+                .map(|t| {
+                    let node = &node;
+                    let b = &barrier;
+                    let n = counts[t];
+                    let sp = spin[t];
+                    s.spawn(move || {
+                        b.wait();
+                        let mut v = Vec::with_capacity(n);
+                        for i in 0..n {
+                            v.push(ref_text(&node.make_reference()));
+                            if sp > 0 && (i as u64) % (sp + 1) == 0 {
+                                std::thread::yield_now();
+                            }
+                        }
+                        v
+                    })
+                })
+                .collect();
+            hs.into_iter().map(|h| h.join().unwrap()).collect()
+        });
+        let lists = per.iter().map(|v| v.join(",")).collect::<Vec<_>>().join(";");
+        ctx.tie("refthr", &format!("c16refthr 0 1 {}", lists), &format!("admitted n={} counter={}", total, 3 * total));
+        ctx.prop("gen", &format!("c16refuniq 1 {}", lists), "ok");
+        let mut all: Vec<&String> = per.iter().flatten().collect();
+        all.sort();
+        if all.windows(2).any(|w| w[0] == w[1]) {
+            ctx.fail("c16-dup-ref", &format!("threads counts={:?} reference handed out twice", counts));
+        }
+        ctx.add("ref_thread_calls", total as u64);
+        ctx.count("traces_validated");
+        ctx.count(&format!("ref_thread_rounds_{}threads", nthreads));
+    }
+}
+
+pub fn run(ctx: &mut Ctx) {
+    seq_part(ctx);
+    ops_part(ctx);
+    thread_part(ctx);
+    ref_part(ctx);
+    crate::c16_sched::run(ctx);
+}
